@@ -25,6 +25,11 @@ CHECKS = {
   note="Shapes are four concrete one-point PointVectors / one concrete 6-point index; the real index construction runs concretely inside the executor. sync.RWMutex modelled as a ghost held-flag for the single executing thread; atomic load/store as plain accesses. Histories longer than the bound and the geometric equality of an updated index with a fresh build are outside.",
   technique="go/ssa symbolic execution with symbolic operation sequences + SMT path feasibility, native replay of the history",
   design="DESIGN.md §4 C13"),
+ "C19": dict(
+  text="Bounded symbolic model checking of the real r1.Interval (exact IEEE-754, SMT FloatingPoint) and s1.Interval (real+UF abstraction with IEEE lemma instances; abstract counterexamples are re-decided in exact IEEE arithmetic and replayed) code against point membership with a universally quantified probe point: union, intersection, Intersects, ContainsInterval, interior variants, AddPoint, ClampPoint/Project, Expanded (r1; s1: validity, empty/full), Complement covering, endpoint constructors, Length sign, ±π handling, validity of every result; inputs: all finite doubles (r1) / all valid intervals incl. empty, full, singleton, inverted, ±π (s1).",
+  note="r1: no abstraction (every double incl. ±0, NaN excluded by assumption). s1: RUF assumes no NaN/overflow and identifies ±0; lemma schemas L1-L10 (DESIGN §3.3) are the trusted base; FPX variants of the s1 harnesses run in the thorough tier. Not decided: s1.Interval.Expanded keeping every point through the math.Remainder wrap, r2/s2.Rect lifts, cap and chord-angle clauses (not built yet), cap membership on the sphere (outside the technique).",
+  technique="go/ssa symbolic execution + SMT: QF_FP exact for r1, LRA+UF with ground IEEE lemmas for s1 with FPX re-check of counterexamples; cvc5/z3 portfolio; native replay",
+  design="DESIGN.md §4 C19"),
 }
 NOT_BUILT = "check not built yet (designed in DESIGN.md section 4)"
 NA = {}
